@@ -21,6 +21,11 @@ open Oslo.Encode Oslo.Slug
 -- theorem below holds for all of them
 variable (k k' : Cls)
 
+deriving instance DecidableEq for Except
+
+/-- a locale for the examples: no `sys.stdin.encoding`, default encoding utf-8 -/
+def env0 : Env := ⟨none, "utf-8".toList⟩
+
 /-! ### what is assumed about a codec table -/
 
 /-- codec `n` represents text faithfully: what strict encoding produces decodes (under any error
@@ -142,6 +147,51 @@ theorem encode_bytes_transcode (C : Codecs) (hci : CaseInsensitive C) (env : Env
   simp only [safeEncode, hb, hne, ne_eq, not_false_eq_true, and_self, if_true]
   rw [hdec]
   cases safeDecode C env (.bytes k b) inc p <;> rfl
+
+/-! ### the public signatures: omitted optional parameters -/
+
+/-- an omitted parameter is its pinned default: `incoming=None`, `encoding='utf-8'`,
+    `errors='strict'`; a passed one (positionally or by keyword) is itself -/
+theorem call_defaults (C : Codecs) (env : Env) (front : Text → Text) (v : Val)
+    (inc : Option Name) (e : Name) (p : Policy) :
+    callSafeDecode C env v none none = safeDecode C env v none .strict ∧
+    callSafeEncode C env v none none none = safeEncode C env v none "utf-8".toList .strict ∧
+    callToSlug C env front v none none = toSlug C env front v none .strict ∧
+    callSafeDecode C env v (some inc) (some p) = safeDecode C env v inc p ∧
+    callSafeEncode C env v (some inc) (some e) (some p) = safeEncode C env v inc e p ∧
+    callSafeEncode C env v (some inc) none (some p) = safeEncode C env v inc "utf-8".toList p ∧
+    callToSlug C env front v (some inc) (some p) = toSlug C env front v inc p :=
+  ⟨rfl, rfl, rfl, rfl, rfl, rfl, rfl⟩
+
+/-- **Default encoding.**  With `encoding` left out, bytes whose incoming codec — given, or taken
+    from the locale — is named `utf-8` in any letter case are returned untouched, valid UTF-8 or
+    not, under every error policy. -/
+theorem encode_bytes_default_encoding_id (C : Codecs) (env : Env) (b : Bytes)
+    (inc : Option (Option Name)) (p : Option Policy)
+    (h : lowerName (resolve env (argOr inc defaultIncoming)) = "utf-8".toList) :
+    callSafeEncode C env (.bytes k b) inc none p = .ok b := by
+  have hd : lowerName defaultEncoding = "utf-8".toList := by decide
+  unfold callSafeEncode
+  exact encode_bytes_same_codec_id k C env b _ _ _ (by rw [argOr, hd, h])
+
+/-- … and a `str` is encoded as UTF-8 (the codec the table files under the name `utf-8`) -/
+theorem encode_str_default_encoding (C : Codecs) (env : Env) (t : Text)
+    (inc : Option (Option Name)) (p : Policy) :
+    callSafeEncode C env (.str k t) inc none (some p) = C.encode utf8Name p t := by
+  have hd : lowerName defaultEncoding = utf8Name := by decide
+  simp [callSafeEncode, argOr, safeEncode, hd]
+
+/-- non-vacuity: ill-formed UTF-8 handed over as `incoming='UTF-8'` (or with a UTF-8 stdin and no
+    `incoming`) and no `encoding` comes back untouched under `replace`; under the alias `utf8` the
+    names differ and the bytes are transcoded (here: replaced) -/
+example :
+    callSafeEncode real env0 (.bytes .exact [0xFF, 0xFE]) (some (some "UTF-8".toList)) none (some .replace)
+      = .ok [0xFF, 0xFE] ∧
+    callSafeEncode real ⟨some "Utf-8".toList, "ascii".toList⟩ (.bytes .exact [0xFF, 0xFE]) none none none
+      = .ok [0xFF, 0xFE] ∧
+    callSafeEncode real env0 (.bytes .exact [0xFF]) (some (some "utf8".toList)) none (some .replace)
+      = .ok [0xEF, 0xBF, 0xBD] := by
+  decide +kernel
 
 /-! ### to_utf8 -/
 
@@ -337,11 +387,6 @@ theorem real_noTypeError : NoTypeError real := by
       · exact hco _ _ h
       · exact hsd _ _ _ h
       · exact hsd _ _ _ h
-
-deriving instance DecidableEq for Except
-
-/-- a locale for the examples: no `sys.stdin.encoding`, default encoding utf-8 -/
-def env0 : Env := ⟨none, "utf-8".toList⟩
 
 /-- non-vacuity: a concrete round trip through UTF-8 (2-, 3- and 4-byte forms) in mixed case,
     a transcoding latin-1 → utf-8, the UTF-8 fall-back, an untouched invalid byte string -/
